@@ -6,6 +6,7 @@ import (
 	"errors"
 	"fmt"
 	"io"
+	"net"
 	"strings"
 
 	"github.com/creachadair/jrpc2"
@@ -86,10 +87,14 @@ func (w *cliWorld) checkMatching(final bool, faulty bool) {
 					continue
 				}
 				if rep.Defect {
+					// A member with a structural defect that bears this id. What the
+					// client makes of it is not settled by the property: it may ignore
+					// it, fail the call (with whatever code), or - where the defect
+					// leaves a usable result (an unknown extra key, a wrong version
+					// marker) - take that result.
 					defectSent = true
-					if strings.Contains(q.Got, rep.Payload) && q.GotCode != -32600 && q.GotCode != -32700 {
-						r.Fail("defective-reply-accepted", "request %s (id %s) completed with %q taken from the defective member %s", q.Tag, q.ID, q.Got, rep.Raw)
-						return
+					if q.GotErr == "" && strings.Contains(q.Got, `"`+rep.Payload+`"`) {
+						hit = rep
 					}
 					continue
 				}
@@ -99,12 +104,15 @@ func (w *cliWorld) checkMatching(final bool, faulty bool) {
 			}
 			switch {
 			case hit != nil:
-				if other, dup := used[pay]; dup {
-					r.Fail("payload-delivered-twice", "reply payload %s was returned to both %s and %s", pay, other, q.Tag)
+				if other, dup := used[hit.Payload]; dup {
+					r.Fail("payload-delivered-twice", "reply payload %s was returned to both %s and %s", hit.Payload, other, q.Tag)
 					return
 				}
-				used[pay] = q.Tag
+				used[hit.Payload] = q.Tag
 				q.Answered = true
+				if hit.Defect {
+					break
+				}
 				if !hit.IsErr && hit.Result != "" && compactJSON(q.Got) != compactJSON(hit.Result) {
 					r.Fail("foreign-payload", "request %s: result %s returned, the peer sent %s", q.Tag, preview([]byte(q.Got)), preview([]byte(hit.Result)))
 					return
@@ -122,10 +130,12 @@ func (w *cliWorld) checkMatching(final bool, faulty bool) {
 						return
 					}
 				}
-			case defectSent && (q.GotCode == -32600 || q.GotCode == -32700):
-				q.Answered = true // completed by the defective member, as an error: allowed
-			case faulty && q.GotErr != "" && !strings.HasPrefix(pay, "r"):
-				// context / stop error: judged by the C05 oracle
+			case q.GotErr != "" && !w.sentPayload(pay) && defectSent:
+				// failed, possibly on account of the defective member (allowed, with
+				// any code), possibly for a reason C05 judges: no rule is based on it
+				q.MaybeDefect = true
+			case q.GotErr != "" && !w.sentPayload(pay) && faulty:
+				// an error made up by the client itself (context / stop): judged by the C05 oracle
 			default:
 				r.Fail("foreign-payload", "request %s (id %s) completed with %q (err %q), which the peer did not send for that id; replies sent for it: %+v", q.Tag, q.ID, q.Got, q.GotErr, q.Replies)
 				return
@@ -156,6 +166,21 @@ func (w *cliWorld) checkMatching(final bool, faulty bool) {
 			}
 		}
 	}
+}
+
+// sentPayload reports whether the peer ever put the text pay into a record as
+// a payload (for whatever id): only then can a completion "carry a peer's
+// payload"; anything else is an error the client made up itself.
+func (w *cliWorld) sentPayload(pay string) bool {
+	if pay == "" {
+		return false
+	}
+	for _, e := range w.r.Sim.Events {
+		if e.Kind == "ch.send" && e.Tag == "peer" && strings.Contains(e.S, `"`+pay+`"`) {
+			return true
+		}
+	}
+	return false
 }
 
 func (w *cliWorld) opOf(q *creq) *cop {
@@ -381,7 +406,7 @@ func (w *cliWorld) checkC05(final bool) {
 				}
 				got := false
 				for _, rep := range q.Replies {
-					if rep.Arrive >= 0 && rep.Arrive < lastQ {
+					if rep.Arrive >= 0 && rep.Arrive < lastQ && !rep.Defect {
 						got = true
 					}
 				}
@@ -423,7 +448,7 @@ func (w *cliWorld) checkC05(final bool) {
 			if _, ok := op.Err.(*jrpc2.Error); ok && w.replyDelivered(op) {
 				continue // an error reply from the peer, matched above
 			}
-			if !stopped && !w.opSendFaulted(op) {
+			if !stopped && !w.opSendFaulted(op) && !w.defectiveSentFor(op) {
 				r.Fail("wrong-outcome", "%s %d failed with %q although nothing had failed, been closed or cancelled", op.Kind, op.Idx, op.ErrS)
 				return
 			}
@@ -437,7 +462,7 @@ func (w *cliWorld) checkC05(final bool) {
 				return
 			}
 			// a reply that arrived before a quiescent point preceding the end of the context and any stop must win
-			if op.Kind != oBatch {
+			if op.Kind != oBatch && !op.ClockFired {
 				if rep, qp := w.deliveredFirst(op.Reqs[0], ctxEnd, fc); rep != nil {
 					r.Fail("wrong-outcome", "%s %d returned %v although reply %s had arrived at #%d, before the quiescent point #%d that precedes the end of its context (#%d)", op.Kind, op.Idx, op.Err, rep.Payload, rep.Arrive, qp, ctxEnd)
 					return
@@ -448,7 +473,7 @@ func (w *cliWorld) checkC05(final bool) {
 		if perReq {
 			// Batch: individual responses may carry context / stop errors
 			for _, q := range op.Reqs {
-				if q.Notify || q.Answered {
+				if q.Notify || q.Answered || q.MaybeDefect {
 					continue
 				}
 				// not a reply of the peer: an error response is allowed once the client
@@ -460,7 +485,7 @@ func (w *cliWorld) checkC05(final bool) {
 				}
 				// the same for each entry of a batch: a reply delivered first wins,
 				// however long the batch then waits for its other entries
-				if rep, qp := w.deliveredFirst(q, ctxEnd, fc); rep != nil && len(w.byID[q.ID]) == 1 {
+				if rep, qp := w.deliveredFirst(q, ctxEnd, fc); rep != nil && len(w.byID[q.ID]) == 1 && !op.ClockFired {
 					r.Fail("wrong-outcome", "Batch %d: response for %s is the error %q although reply %s had arrived at #%d, before the quiescent point #%d that precedes the end of the batch's context (#%d) and any stop", op.Idx, q.Tag, q.GotErr, rep.Payload, rep.Arrive, qp, ctxEnd)
 					return
 				}
@@ -509,9 +534,22 @@ func (w *cliWorld) deliveredFirst(q *creq, ctxEnd, fc int) (*peerReply, int) {
 	return nil, 0
 }
 
+// defectiveSentFor: the peer has sent a structurally defective member bearing
+// the id of one of op's requests (the client may fail the call on its account).
+func (w *cliWorld) defectiveSentFor(op *cop) bool {
+	for _, q := range op.Reqs {
+		for _, rep := range q.Replies {
+			if rep.Defect && (op.Return < 0 || rep.Seq <= op.Return) {
+				return true
+			}
+		}
+	}
+	return false
+}
+
 func (w *cliWorld) replyDelivered(op *cop) bool {
 	for _, q := range op.Reqs {
-		if q.Answered {
+		if q.Answered || q.MaybeDefect {
 			return true
 		}
 	}
@@ -529,24 +567,31 @@ func (w *cliWorld) checkC05Final() {
 		// the reported cause must have occurred by then
 		// classify the reported cause without relying on message texts: the
 		// error of Close is the only one that is none of the others
-		kind := "close"
-		var je *jrpc2.Error
+		// Only errors the harness owns identify a cause: io.EOF (the peer hung
+		// up), the injected channel error, a closed-channel error (the reader saw
+		// its own channel closed: Close). Whatever else the client reports - nil
+		// or its own sentinel for an orderly Close, its own description of an
+		// undecodable record - stands for "Close or malformed record".
+		kind := "other"
 		switch e := w.onStopErr[0]; {
 		case e == nil:
-			r.Fail("onstop-cause", "OnStop received a nil error")
-			return
+			kind = "close"
 		case errors.Is(e, io.EOF):
 			kind = "eof"
 		case errors.Is(e, ErrInjected):
 			kind = "error"
-		case channel.IsErrClosing(e):
-			kind = "close" // the reader saw its own channel closed
-		case errors.As(e, &je):
-			kind = "malformed"
+		case errors.Is(e, net.ErrClosed) || channel.IsErrClosing(e):
+			kind = "close"
+		}
+		same := func(causeKind string) bool {
+			if kind == "other" {
+				return causeKind == "close" || causeKind == "malformed"
+			}
+			return causeKind == kind
 		}
 		ok := false
 		for _, c := range w.causes {
-			if c.Kind == kind && c.Begin <= w.onStopSeq[0] {
+			if same(c.Kind) && c.Begin <= w.onStopSeq[0] {
 				ok = true
 			}
 		}
@@ -555,7 +600,7 @@ func (w *cliWorld) checkC05Final() {
 			return
 		}
 		// first cause wins when it demonstrably completed before any other began
-		for _, a := range w.causes {
+		for i, a := range w.causes {
 			if a.Optional {
 				continue
 			}
@@ -571,19 +616,19 @@ func (w *cliWorld) checkC05Final() {
 				continue
 			}
 			first := true
-			for _, b := range w.causes {
-				if b != a && b.Begin <= a.End {
+			for j, b := range w.causes {
+				if j != i && b.Begin <= a.End {
 					first = false
 				}
 			}
-			if first && a.Kind != kind {
+			if first && !same(a.Kind) {
 				r.Fail("onstop-cause", "OnStop reported %q (%s) but the first stop cause, complete before any other began, was %s: %+v", w.onStop[0], kind, a.Kind, w.causes)
 				return
 			}
 		}
 		for _, op := range w.ops {
 			for _, q := range op.Reqs {
-				if q.Notify || q.ID == "" || len(w.byID[q.ID]) != 1 {
+				if q.Notify || q.ID == "" || len(w.byID[q.ID]) != 1 || q.MaybeDefect {
 					continue
 				}
 				q.Cancels = w.cancelCount[q.ID]
@@ -591,7 +636,7 @@ func (w *cliWorld) checkC05Final() {
 				if op.CancelSeq >= 0 {
 					ce = op.CancelSeq
 				}
-				if rep, qp := w.deliveredFirst(q, ce, w.firstCause()); rep != nil && q.Cancels != 0 {
+				if rep, qp := w.deliveredFirst(q, ce, w.firstCause()); rep != nil && q.Cancels != 0 && !op.ClockFired {
 					r.Fail("oncancel-count", "OnCancel ran %d times for request %s (id %s), whose reply %s had been delivered (arrived #%d, quiescent #%d) before its context ended or the client stopped", q.Cancels, q.Tag, q.ID, rep.Payload, rep.Arrive, qp)
 					return
 				}
